@@ -7,7 +7,7 @@ import hashlib
 import os
 
 from checks.common import Reporter, confirm_minimise_report, default_workers, run_regressions
-from simkit.core import Evidence, log, merge_counts, run_seed
+from simkit.core import mark_cover, reach_report, Evidence, log, merge_counts, run_seed
 from simkit.pool import ZygotePool, unwrap
 from worlds import decworld
 
@@ -75,6 +75,7 @@ def main(tier: str, seed: int, opts) -> int:
         j["hashseed"] = configs[i % 4]
     with ZygotePool(workers=default_workers(), hashseeds=configs, preload="worlds.decworld") as pool:
         n_reg = run_regressions(rep, pool, PROP)
+        mark_cover(jobs)
         results = [unwrap(r, "C02 run") for r in pool.map(jobs, progress="C02")]
         fs: dict = {}
         faults: dict = {}
@@ -129,6 +130,7 @@ def main(tier: str, seed: int, opts) -> int:
             samples.insert(0, {"canonical_text": rendered["canonical_text"][:1500],
                                "plans": sample_out["case"]["deliveries"],
                                "first_delivery": rendered["deliveries"][0]})
+    cover_hits = set(pool.cover_hits)
     ev.cov.update({
         "evaluations": deliveries,
         "distinct_nontrivial": len(sim_abstract),
@@ -146,6 +148,7 @@ def main(tier: str, seed: int, opts) -> int:
         "simulated_fs_counters": fs,
         "fault_kinds_fired": {**faults, "short_reads": fs.get("short_reads", 0)},
         "regression_replays_run": n_reg,
+        "anchored_code_reach": reach_report(PROP, cover_hits),
         "process_configurations": {"utf8_locale_runs": sum(1 for j in jobs if "@" not in str(j.get("hashseed"))),
                                    "non_utf8_locale_runs": sum(1 for j in jobs if "@clocale" in str(j.get("hashseed")))},
         "log_digest": digest.hexdigest(),
